@@ -103,3 +103,88 @@ def split_at(seq, cuts):
         out.append(seq[prev:c])
         prev = c
     return out
+
+
+def perturbations():
+    """Operations elsewhere in mido - many of them failing - that a check can
+    run BEFORE repeating a sample of its cases, so that state left behind by
+    another call (a flag not restored on an error path, a memo, a shared
+    parser) becomes visible.  Each entry is (name, thunk); exceptions are
+    swallowed."""
+    import io
+    import os
+    import tempfile
+
+    import mido
+    import mido.frozen
+
+    def bad_load(data, **kw):
+        return lambda: mido.MidiFile(file=io.BytesIO(data), **kw)
+
+    good = io.BytesIO()
+    mf = mido.MidiFile()
+    mf.tracks.append(mido.MidiTrack([mido.Message('note_on', time=3), mido.MetaMessage('text', text='x'),
+                                     mido.Message('sysex', data=(1, 2), time=1)]))
+    mf.save(file=good)
+    gb = good.getvalue()
+
+    def bad_save(msg):
+        def f():
+            m = mido.MidiFile()
+            m.tracks.append(mido.MidiTrack([mido.Message('note_on', time=1), mido.Message('sysex', data=(1, 2, 3)), msg]))
+            m.save(file=io.BytesIO())
+        return f
+
+    def syx(text):
+        def f():
+            fd, path = tempfile.mkstemp(suffix='.syx', prefix='vmon-pert-')
+            try:
+                os.write(fd, text)
+                os.close(fd)
+                mido.read_syx_file(path)
+            finally:
+                os.remove(path)
+        return f
+
+    def partial_iter():
+        it = iter(mido.MidiFile(file=io.BytesIO(gb)))
+        next(it)
+
+    def feed_bad():
+        p = mido.Parser()
+        p.feed([0x90, 1, 2, 300])
+
+    out = [
+        ('load empty file', bad_load(b'')),
+        ('load truncated file', bad_load(gb[:len(gb) - 3])),
+        ('load truncated file utf-16', bad_load(gb[:30], charset='utf-16')),
+        ('load not a midi file', bad_load(b'RIFF' + gb)),
+        ('load bad data byte', bad_load(gb.replace(b'\x90\x00\x40', b'\x90\x00\xc8'))),
+        ('load good file', bad_load(gb)),
+        ('load good file clip debug', bad_load(gb, clip=True)),
+        ('save float time', bad_save(mido.Message('note_on', time=0).copy(skip_checks=True, time=0.5))),
+        ('save realtime', bad_save(mido.Message('clock'))),
+        ('save good', bad_save(mido.Message('note_off'))),
+        ('parser garbage', lambda: mido.parse_all([0xF0, 1, 0x90, 0xF7, 0xF4, 5])),
+        ('parser invalid item', feed_bad),
+        ('from_bytes invalid', lambda: mido.Message.from_bytes([0x90, 200, 1])),
+        ('from_bytes short', lambda: mido.Message.from_bytes([0xE0])),
+        ('from_hex invalid', lambda: mido.Message.from_hex('ZZ')),
+        ('from_str invalid', lambda: mido.Message.from_str('note_on note=999')),
+        ('ctor invalid', lambda: mido.Message('note_on', note=-1)),
+        ('skip_checks message', lambda: mido.Message('note_on', note=999, skip_checks=True).copy(skip_checks=True, note=1000)),
+        ('meta invalid', lambda: mido.MetaMessage('set_tempo', tempo=-1)),
+        ('meta from_bytes invalid', lambda: mido.MetaMessage.from_bytes([0xFF, 0x51, 0x03, 1])),
+        ('syx invalid text', syx(b'F0 01 F7\nF0 02 F7\nF0 GG F7\n')),
+        ('syx valid text', syx(b'F0 01 F7\n')),
+        ('abandoned file iteration', partial_iter),
+        ('freeze and hash', lambda: hash(mido.frozen.freeze_message(mido.Message('note_on')))),
+    ]
+    return out
+
+
+def run_quietly(thunk):
+    try:
+        thunk()
+    except Exception:
+        pass
